@@ -15,9 +15,9 @@ CHECKS = {
     "C05": ("proof",
             "Lean theorems over unbounded matrices/tours: loop = cyclic edge sum, nearest/farthest-neighbour bounds for every "
             "permutation, symmetry flag iff, stored = given and fits the chosen dtype, no int64 overflow; model tied to the code by "
-            "differential correspondence (exhaustive small scope, dtype thresholds, random, shipped instances).",
+            "differential correspondence (exhaustive small scope, dtype thresholds, random, shipped instances). The kernel `tour_length` is additionally TRANSLATED from the current source on every run (harness/translate/loop2lean.py -> lean/Gen) and theorem C05Gen.* proves the generated definition equal to the hand model Tsp.tourLen? for all inputs.",
             TB + "numba int64 promotion and x[-1] wrap, moptipy int_range_to_dtype (modelled, threshold-checked), sanitize_name.",
-            "Lean 4 proof (induction over tours, List.Perm re-indexing) + model/implementation correspondence", "6/C05"),
+            "Lean 4 proof (induction over tours, List.Perm re-indexing) + model/implementation correspondence", "6/C05", ["Props.C05Gen"]),
     "C06": ("proof",
             "15 Lean theorems, no residue: the O(1) delta equals the true change of tour length for every i<j<n except the whole array "
             "(symmetric d, any permutation, incl. the x[i-1] wrap and (j+1)%n), reversal = segment reversal and permutation-preserving, "
@@ -31,26 +31,26 @@ CHECKS = {
             "plans/matrices; no OOB on the space; lower/upper bound and strict increase on replacing any game by a bye for every "
             "constructor-accepted instance (no triangle inequality); upper bound tight; int64 range under upper_bound < 2^63. The four-team "
             "optimum clause is a finite table decided by exhaustive enumeration of all 7 x 12^6 plans with the real kernels (labelled "
-            "enumeration, not proof).",
+            "enumeration, not proof). The kernel `game_plan_length` is additionally TRANSLATED from the current source on every run (harness/translate/loop2lean.py -> lean/Gen) and theorem C08Gen.* proves the generated definition equal to the hand model TtpLength.planLength? for all inputs.",
             TB + "known finding overflow_int64 (upper_bound() can exceed 2^63 for accepted instances); count_errors == 0 as feasibility "
             "filter in the optimum clause (C07).",
-            "Lean 4 proof (per-team walk induction) + correspondence + exhaustive enumeration of the four-team table", "6/C08"),
+            "Lean 4 proof (per-team walk induction) + correspondence + exhaustive enumeration of the four-team table", "6/C08", ["Props.C08Gen"]),
     "C09": ("proof",
             "17 Lean theorems: loop = documented double sum; no OOB; rearrangement-inequality bounds lb <= value <= ub for every "
             "permutation (exchange argument on sorted lists); uint64 trivial_bounds kernel and int64 accumulator exact (partial sums < 2^53 "
             "when ub < 10^15); stored = given for every accepted constructor call; the QAPLIB parser accepts exactly the texts listing n, n^2 "
             "flows, n^2 distances on separate lines (iff), straddling lines raise, no silent misparse. Tie: differential correspondence "
-            "(all dtype thresholds +-1, all wrappings of small texts, random, shipped QAPLIB).",
+            "(all dtype thresholds +-1, all wrappings of small texts, random, shipped QAPLIB). The kernel `_evaluate` is additionally TRANSLATED from the current source on every run (harness/translate/loop2lean.py -> lean/Gen) and theorem C09Gen.* proves the generated definition equal to the hand model Qap.qapEval? (up to the int64 wrap of the accumulator) for all inputs.",
             TB + "numba 0.60 int64 accumulator / uint64 wrap, numpy sort/astype, moptipy int_range_to_dtype, Python str.split/int() on ASCII.",
-            "Lean 4 proof (sorted-list exchange argument, parser state machine) + correspondence", "6/C09"),
+            "Lean 4 proof (sorted-list exchange argument, parser state machine) + correspondence", "6/C09", ["Props.C09Gen"]),
     "C15": ("proof",
             "19 Lean theorems for all n >= 2, all rounds, all integer lists: the blueprint contains each pairing exactly `rounds` times with "
             "pair and team home/away counts differing by <= 1 (closed-form parity argument), and the array-level model of map_games returns "
             "exactly the plan of the unique earliest-slot schedule, independent of prior destination content: consistent, no self-play, once "
             "per day, values in -n..n, no game more often than in x, no OOB, ZeroDivisionError exactly for n < 2. Tie: all blueprints n <= "
-            "40/120 x rounds <= 7, exhaustive permutations of multisets of <= 8 games, random, dirty destinations, real GameEncoding objects.",
+            "40/120 x rounds <= 7, exhaustive permutations of multisets of <= 8 games, random, dirty destinations, real GameEncoding objects. The kernel `map_games` is additionally TRANSLATED from the current source on every run (harness/translate/loop2lean.py -> lean/Gen) and theorem C15Gen.* proves the generated definition equal to the hand model GameEnc.mapGames for all inputs.",
             TB + "numba floor-division semantics, moptipy Permutations (only non-emptiness/sortedness used).",
-            "Lean 4 proof (refinement of the loop to an explicit list, inductive EarliestSlot relation + uniqueness) + correspondence", "6/C15"),
+            "Lean 4 proof (refinement of the loop to an explicit list, inductive EarliestSlot relation + uniqueness) + correspondence", "6/C15", ["Props.C15Gen"]),
     "C16": ("proof",
             "Part A (translator): the njit controller and system kernels are re-translated from the current source to Lean on every run; 31 "
             "theorems show the generated definitions equal the documented formulas over any linear ordered field: linear/quadratic/cubic are "
